@@ -1,3 +1,4 @@
+import DSV.FactsOK.SrcC07
 import DSV.Generated.Facts
 import DSV.Mercury.V1
 import DSV.Mercury.V2
